@@ -38,7 +38,10 @@ def gen(seed, tier):
     kind = r.choice(('file', 'file', 'mapping', 'demo:mapping:mapping'))
     return {'kind': kind, 'ops': CS.gen_program(r, r.randint(4, 30),
                                                  True, kind),
-            'cache_size': 400,
+            # (small: the clean-up at a savepoint evicts objects -- also
+            # new ones it has just saved)
+            'cache_size': 400 if r.random() < 0.8 else r.choice((1, 3)),
+            'look_after_sp': r.random() < 0.5,
             'bufsize': r.choice((64, 8192)), 'tier': tier}
 
 
